@@ -119,3 +119,19 @@ fn node_encoding() {
     std::mem::forget(h);
     std::mem::forget(node);
 }
+
+/// thorough tier: paths of up to 13 bytes (four two-byte segments with separators and more)
+/// SCENARIO validate_path_sym13: buf:[u8;13] n:usize
+#[kani::proof]
+#[kani::unwind(16)]
+fn validate_path_sym13() {
+    check_path::<13>()
+}
+
+/// thorough tier: paths of up to 16 bytes
+/// SCENARIO validate_path_sym16: buf:[u8;16] n:usize
+#[kani::proof]
+#[kani::unwind(19)]
+fn validate_path_sym16() {
+    check_path::<16>()
+}
